@@ -367,6 +367,17 @@ example : checkThread (.node .doNotConvert [] none false)
     [⟨[], .start, false, some ⟨.dflt, .unspecified⟩⟩, ⟨[0], .inn, true, some ⟨.fresh 0, .disabled⟩⟩,
      ⟨[0], .out, true, some ⟨.fresh 0, .disabled⟩⟩, ⟨[], .fin, false, some ⟨.dflt, .unspecified⟩⟩] = false := by decide
 
+-- `s.stack ≠ []` (hypothesis of the safety / checker / converted-code theorems) holds of every thread's initial state
+example : TState.init.stack ≠ [] := by decide
+-- hypothesis of `C16_status_callee_of_converted_code`: converted code running under the ENABLED object it entered
+example : (⟨[⟨.fresh 0, .enabled⟩, ⟨.dflt, .unspecified⟩], 1⟩ : TState).stack.head? = some ⟨.fresh 0, .enabled⟩ := rfl
+-- hypotheses of `C16_noninterference`: different worlds around the same thread 1, same number of its steps
+private def exG' : Global := fun t => if t = 1 then Cfg.init (.node .doNotConvert [] (some 0) false) TState.init else Cfg.init ex1 ⟨[], 7⟩
+example : exG 1 = exG' 1 := rfl
+example : ([0, 1, 0, 1, 1] : List Tid).count 1 = ([1, 5, 1, 9, 9, 1, 3] : List Tid).count 1 := by decide
+example : runSched exG [0, 1, 0, 1, 1] 1 = runSched exG' [1, 5, 1, 9, 9, 1, 3] 1 :=
+  C16_noninterference exG exG' _ _ 1 rfl (by decide)
+
 end Examples
 
 end Malt.Ctx
